@@ -724,6 +724,55 @@ def compile_real(text, alarm_s=None):
     return oc, pr
 
 
+def include_family(chk, rng, n):
+    """compile_file on small include graphs whose @include lines are valid or broken in every way (no path, two paths,
+    a missing file, a directory, itself, a cycle, inside a passage, with a trailing comment), in the entry file and in
+    included files: the outcome must be a story, SyntaxError, ValueError or FileNotFoundError - nothing else."""
+    import shutil
+    import tempfile
+    from bardic.compiler.compiler import BardCompiler
+    forms = ["@include", "@include ", "@include a.bard b.bard", "@include parts/b.bard extra", "@include missing.bard",
+             "@include parts", "@include {self}", "@include parts/b.bard", "@include a.bard", "@include a.bard // note",
+             "@include  a.bard", "@include ../{dir}/a.bard", "@include a.bard\t", "  @include a.bard", "@include \"a.bard\""]
+    stats = {"cases": 0, "outcomes": {}}
+    tmp = tempfile.mkdtemp(prefix="bardic_verif_c11_inc_")
+    try:
+        for k in range(n):
+            d = os.path.join(tmp, f"g{k}")
+            os.makedirs(os.path.join(d, "parts"))
+            where = rng.choice(["main", "a", "b"])
+            form = rng.choice(forms)
+            files = {"main.bard": [":: Start", "hello", "@include a.bard", "+ [Go] -> A"],
+                     "a.bard": [":: A", "in a", "@include parts/b.bard", "+ [Go] -> B"],
+                     "parts/b.bard": [":: B", "in b", "+ [Back] -> Start"]}
+            if rng.random() < 0.2:
+                files["parts/b.bard"].insert(2, "@include ../a.bard")          # a cycle
+            key = {"main": "main.bard", "a": "a.bard", "b": "parts/b.bard"}[where]
+            line = form.replace("{self}", os.path.basename(key)).replace("{dir}", os.path.basename(d))
+            files[key].insert(rng.randrange(0, len(files[key]) + 1), line)
+            for rel, ls in files.items():
+                with open(os.path.join(d, rel), "w") as f:
+                    f.write("\n".join(ls) + "\n")
+            try:
+                with C.alarm(ALARM_S):
+                    oc = outcome(lambda: BardCompiler().compile_file(os.path.join(d, "main.bard"), os.path.join(d, "out.json")))
+            except C.Timeout:
+                oc = ("timeout",)
+            stats["cases"] += 1
+            kind = oc[0] if oc[0] != "other" else "other:" + oc[1]
+            stats["outcomes"][kind] = stats["outcomes"].get(kind, 0) + 1
+            replay = {"kind": "include-graph", "files": files, "edited": key, "line": line}
+            if oc[0] == "timeout":
+                chk.report("timeout:include-graph", "compile_file did not return", replay)
+            elif oc[0] == "other" and oc[1] != "FileNotFoundError":
+                chk.report(f"internal-error:{oc[1]}:{oc[2]}", f"compile_file raised {oc[1]} on an include graph with the line {line!r} "
+                           f"in {key}", replay)
+            chk.count(("include", where, form), True)
+    finally:
+        shutil.rmtree(tmp, ignore_errors=True)
+    return stats
+
+
 # ------------------------------------------------------------------------------------------------
 # (d) the C12 structural validator over a real compiled dict
 # ------------------------------------------------------------------------------------------------
@@ -1368,6 +1417,7 @@ def run(tier: str, seed: int) -> int:
         inputs.append((fam, ls, rng.random() < share))
     inputs += call_matrix(rng, quick)
     inputs += bracket_statement_inputs(rng, 150 if quick else 1500)
+    dist["include_graphs"] = include_family(chk, rng, 120 if quick else 1200)
     for _ in range(n_gen_plain):
         inputs.append(("generated-plain", gen_story_lines(rng, blocks=False), True))
     for _ in range(n_gen_blocks):
